@@ -265,6 +265,9 @@ func TestEngine(t *testing.T) {
 		if wantLogHash {
 			out.LogHashes[strconv.FormatUint(seed, 10)] = res.Stats.LogHash
 		}
+		if dl := os.Getenv("VERIF_DUMPLOG"); dl != "" {
+			_ = os.WriteFile(fmt.Sprintf("%s.%d", dl, seed), []byte(strings.Join(res.EvLog, "\n")+"\n"), 0o644)
+		}
 		if len(out.Samples) < 3 && res.Sample != "" {
 			out.Samples = append(out.Samples, fmt.Sprintf("seed=%d steps=%d reorders=%d faults=%v :: %s", seed, res.Stats.Steps,
 				res.Stats.Reorders, res.Stats.Faults, res.Sample))
